@@ -308,8 +308,8 @@ impl VolatileState {
 //@fn state/structs.rs VolatileState::add_user unit=structs props=C02,C19,C11
 //@spec
         requires
-            state_wf(*old(self)),
-            !old(self).users@.contains_key(sk(unick)),
+            state_wf(*old(self)), // @prop C19,C02
+            !old(self).users@.contains_key(sk(unick)), // @prop C02
             user.channels@ == Set::<String>::empty(),
             forall|n: String| old(self).users@.contains_key(n) ==> (#[trigger] old(self).users@[n]).sender.id() != user.sender.id(),
         ensures
